@@ -57,6 +57,9 @@ fn main() {
             "tree" => tree_line(&toks),
             "alias" => alias_line(&toks),
             "samp" => samp::line(&toks),
+            "sweep" => samp::sweep(&toks),
+            "many" => samp::many(&toks),
+            "lat" => samp::lat(&toks),
             "zig" => zig_line(),
             "ping" => "pong".to_string(),
             other => format!("unknown:{}", other),
